@@ -60,6 +60,27 @@ def propagate_function(f, ref_names):
     params = {a.arg for a in ast.walk(f.args) if isinstance(a, ast.arg)}
     if not (alpha.bound_names(f) - set(ref_names) - params):
         return done
+    # `a, b, c = X` with new names and a plain source (name / attribute / subscript) is `a = X[0]; b = X[1]; c = X[2]`
+    newnames = alpha.bound_names(f) - set(ref_names) - params
+
+    def simple_src(e):
+        return isinstance(e, ast.Name) or (isinstance(e, ast.Attribute) and simple_src(e.value)) or (isinstance(e, ast.Subscript) and simple_src(e.value) and isinstance(e.slice, (ast.Constant, ast.Name)))
+    st = [f]
+    while st:
+        n = st.pop()
+        for b in _blocks(n):
+            out = []
+            for s_ in b:
+                if isinstance(s_, ast.Assign) and len(s_.targets) == 1 and isinstance(s_.targets[0], ast.Tuple) and simple_src(s_.value) \
+                        and all(isinstance(t, ast.Name) and t.id in newnames for t in s_.targets[0].elts) and not any(isinstance(t, ast.Starred) for t in s_.targets[0].elts):
+                    for k, t in enumerate(s_.targets[0].elts):
+                        out.append(ast.copy_location(ast.Assign(targets=[t], value=ast.copy_location(ast.Subscript(value=copy.deepcopy(s_.value), slice=ast.Constant(value=k), ctx=ast.Load()), s_)), s_))
+                    done.append(('<unpack>', ast.unparse(s_.value)[:40], len(s_.targets[0].elts)))
+                    continue
+                out.append(s_)
+                if not isinstance(s_, (ast.FunctionDef, ast.AsyncFunctionDef, ast.ClassDef)):
+                    st.append(s_)
+            b[:] = out
     for _round in range(6):
         changed = False
         bound = alpha.bound_names(f)
